@@ -546,9 +546,13 @@ impl SegmentIndex {
         writer.flush()?;
         writer.get_ref().sync_all()?;
         drop(writer); // Ensure file handle is closed before rename
+        #[cfg(feature = "verif-hooks")]
+        crate::verif_hooks::point("idx.tmp_written", entries.len() as u64);
 
         // Atomic rename: on most filesystems, this is an atomic operation
         std::fs::rename(&tmp_path, &path)?;
+        #[cfg(feature = "verif-hooks")]
+        crate::verif_hooks::point("idx.renamed", entries.len() as u64);
 
         // Sync parent directory to ensure rename is persisted
         if let Some(parent) = path.parent() {
